@@ -183,10 +183,474 @@ func (g *c12gen) year() (string, string) {
 	return JSNum(float64(v)), "(Some " + Cz(v) + ")"
 }
 
+// ---- round-6 families: arguments in thousandths, setter histories with local-time setters in a constant-offset zone ----
+
+// one argument: its JavaScript text and its value in thousandths as a Coq option Z (None = NaN / infinite / not a number)
+type qarg struct{ js, cq string }
+
+func cqMilli(m int64) string { return "(Some " + Cz(m) + ")" }
+
+// decimal text of m/1000 (exact), negative values parenthesised
+func milliText(m int64) string {
+	neg := m < 0
+	if neg {
+		m = -m
+	}
+	s := fmt.Sprintf("%d", m/1000)
+	if m%1000 != 0 {
+		s += strings.TrimRight(fmt.Sprintf(".%03d", m%1000), "0")
+	}
+	if neg {
+		return "(-" + s + ")"
+	}
+	return s
+}
+
+// spelling 0: number, 1: numeric string, 2: object with valueOf, 3: object with toString only
+func qMilli(m int64, spelling int) qarg {
+	t := milliText(m)
+	switch spelling % 4 {
+	case 1:
+		return qarg{"\"" + strings.Trim(t, "()") + "\"", cqMilli(m)}
+	case 2:
+		return qarg{"({valueOf: function () { return " + t + "; }})", cqMilli(m)}
+	case 3:
+		return qarg{"({toString: function () { return \"" + strings.Trim(t, "()") + "\"; }})", cqMilli(m)}
+	}
+	return qarg{t, cqMilli(m)}
+}
+func qInt(v int64) qarg {
+	if v > 9e15 || v < -9e15 {
+		panic("qInt: out of range")
+	}
+	return qarg{JSNum(float64(v)), cqMilli(v * 1000)}
+}
+
+// arguments that do not convert to a finite number, and two that do (null, a finite surplus)
+var c12NonNumbers = []qarg{{"NaN", "None"}, {"undefined", "None"}, {"void 0", "None"}, {"Infinity", "None"}, {"(-Infinity)", "None"},
+	{"\"x\"", "None"}, {"({})", "None"}, {"({valueOf: function () { return NaN; }})", "None"}, {"(function () {})", "None"}, {"[1,2]", "None"}}
+
+var c12LocalSetters = map[int]string{10: "setMilliseconds", 11: "setSeconds", 12: "setMinutes", 13: "setHours", 14: "setDate", 15: "setMonth", 16: "setFullYear"}
+
+func c12SetterName(id int) string {
+	if id >= 10 {
+		return c12LocalSetters[id]
+	}
+	return c12Setters[id].name
+}
+func c12Arity(id int) int { return c12Setters[id%10].max }
+
+type c12zone struct {
+	loc *time.Location
+	off int64 // ms
+}
+
+var c12Zones = []c12zone{{time.UTC, 0}, {time.FixedZone("LMT", -(4*3600 + 56*60 + 2)), -(4*3600 + 56*60 + 2) * 1000},
+	{time.FixedZone("IST", 5*3600+30*60), (5*3600 + 30*60) * 1000}, {time.FixedZone("X", 13*3600+45*60+7), (13*3600 + 45*60 + 7) * 1000}}
+
+type hop struct {
+	id   int
+	args []qarg
+	form int // 0 d.f(a..), 1 d.f.apply(d,[a..]), 2 d.f.call(d,a..), 3 Date.prototype.f.apply(d,[a..])
+}
+
+const c12GetJS = `[d.getTime(), d.getUTCFullYear(), d.getUTCMonth(), d.getUTCDate(), d.getUTCDay(), d.getUTCHours(), d.getUTCMinutes(), d.getUTCSeconds(), d.getUTCMilliseconds(), d.valueOf(), d.getFullYear(), d.getMonth(), d.getDate(), d.getDay(), d.getHours(), d.getMinutes(), d.getSeconds(), d.getMilliseconds()].join(",")`
+
+// hist runs "var d = <start>" and the setter calls in the zone z and records result + getTime() after each call, then every
+// getter, toISOString and toJSON of the final state
+func (g *c12gen) hist(bucket string, z c12zone, startJS, startCq string, ops []hop) {
+	var src strings.Builder
+	fmt.Fprintf(&src, "var d = %s; var out = [];", startJS)
+	cops := make([]string, len(ops))
+	for k, o := range ops {
+		js, cq := make([]string, len(o.args)), make([]string, len(o.args))
+		for i, a := range o.args {
+			js[i], cq[i] = a.js, a.cq
+		}
+		name := c12SetterName(o.id)
+		var call string
+		switch o.form % 4 {
+		case 1:
+			call = fmt.Sprintf("d.%s.apply(d, [%s])", name, strings.Join(js, ","))
+		case 2:
+			call = fmt.Sprintf("d.%s.call(%s)", name, strings.Join(append([]string{"d"}, js...), ","))
+		case 3:
+			call = fmt.Sprintf("Date.prototype.%s.apply(d, [%s])", name, strings.Join(js, ","))
+		default:
+			call = fmt.Sprintf("d.%s(%s)", name, strings.Join(js, ","))
+		}
+		fmt.Fprintf(&src, "out.push(%s); out.push(d.getTime());", call)
+		cops[k] = fmt.Sprintf("(%d, %s)", o.id, Clist(cq))
+	}
+	fmt.Fprintf(&src, ` var ok = d.getTime() === d.getTime(); [out.join(","), %s, ok ? d.toISOString() : "", ok ? String(d.toJSON()) : (d.toJSON() === null ? "" : "toJSON of an invalid Date is not null")].join("|")`, c12GetJS)
+	old := time.Local
+	time.Local = z.loc
+	obs := g.js(src.String())
+	time.Local = old
+	parts := strings.Split(obs, "|")
+	outs, fin, iso := []string{}, []string{"None"}, obs
+	if len(parts) == 4 {
+		if parts[0] != "" {
+			outs = optZList(parts[0])
+		}
+		fin = optZList(parts[1])
+		iso = parts[2]
+		if parts[3] != parts[2] {
+			iso += " toJSON=" + parts[3]
+		}
+	}
+	g.env.Add(fmt.Sprintf("CHist %s %s %s %s %s %s", Cz(z.off), startCq, Clist(cops), Clist(outs), Clist(fin), Cstr(iso)),
+		fmt.Sprintf("%s: [zone offset %d ms] %s -> %s", bucket, z.off, src.String(), obs), bucket, true)
+}
+
+func (g *c12gen) utcq(bucket string, ctor bool, args []qarg) {
+	js, cq := make([]string, len(args)), make([]string, len(args))
+	for i, a := range args {
+		js[i], cq[i] = a.js, a.cq
+	}
+	which, tag := "Date.UTC("+strings.Join(js, ",")+")", "0"
+	if ctor {
+		which, tag = "new Date("+strings.Join(js, ",")+").getTime()", "1"
+	}
+	old := time.Local
+	time.Local = time.UTC
+	obs := g.js(which)
+	time.Local = old
+	g.env.Add(fmt.Sprintf("CUtcQ %s %s %s", tag, Clist(cq), optZ(obs)), fmt.Sprintf("%s: %s -> %s", bucket, which, obs), bucket, true)
+}
+
+// the parameters of setter id (0..6 / 10..16) read off the civil time tm: e.g. id 3 -> hour, minute, second, ms
+func c12Params(id int, tm time.Time) []int64 {
+	y, mo, dd := int64(tm.Year()), int64(tm.Month())-1, int64(tm.Day())
+	h, mi, sc, ms := int64(tm.Hour()), int64(tm.Minute()), int64(tm.Second()), int64(tm.Nanosecond()/1000000)
+	switch id % 10 {
+	case 0:
+		return []int64{ms}
+	case 1:
+		return []int64{sc, ms}
+	case 2:
+		return []int64{mi, sc, ms}
+	case 3:
+		return []int64{h, mi, sc, ms}
+	case 4:
+		return []int64{dd}
+	case 5:
+		return []int64{mo, dd}
+	}
+	return []int64{y, mo, dd}
+}
+
+// a base instant that differs from the target in exactly the first n parameters of setter id (civil time in loc), so that
+// the setter called with the target's own field values lands exactly on the target; ok = false when the altered
+// month would not hold the target's day of the month
+func c12BaseFor(id, n int, target int64, loc *time.Location) (int64, bool) {
+	tm := time.UnixMilli(target).In(loc)
+	y, mo, dd := tm.Year(), int(tm.Month()), tm.Day()
+	h, mi, sc, ms := tm.Hour(), tm.Minute(), tm.Second(), tm.Nanosecond()/1000000
+	alter := func(k int) {
+		switch k {
+		case 0:
+			ms = (ms + 500) % 1000
+		case 1:
+			sc = (sc + 30) % 60
+		case 2:
+			mi = (mi + 30) % 60
+		case 3:
+			h = (h + 12) % 24
+		case 4:
+			dd = (dd+13)%28 + 1
+		case 5:
+			mo = (mo+5)%12 + 1
+		case 6:
+			y += 400
+		}
+	}
+	order := map[int][]int{0: {0}, 1: {1, 0}, 2: {2, 1, 0}, 3: {3, 2, 1, 0}, 4: {4}, 5: {5, 4}, 6: {6, 5, 4}}[id%10]
+	monthAltered, dayAltered := false, false
+	for k := 0; k < n && k < len(order); k++ {
+		alter(order[k])
+		monthAltered = monthAltered || order[k] == 5
+		dayAltered = dayAltered || order[k] == 4
+	}
+	if monthAltered && !dayAltered && dd > 28 {
+		return 0, false
+	}
+	return time.Date(y, time.Month(mo), dd, h, mi, sc, ms*1000000, loc).UnixMilli(), true
+}
+
+func c12ISO(t int64) string { return time.UnixMilli(t).UTC().Format("2006-01-02T15:04:05.000Z") }
+
+const c12GoZero = -62135596800000 // 0001-01-01T00:00:00.000Z, the instant of Go's zero time.Time
+
+func (g *c12gen) pinnedFamilies() {
+	env := g.env
+	thorough := env.Tier == "thorough"
+	rot := int(env.Seed % 3)
+	if rot < 0 {
+		rot += 3
+	}
+	utcZ := c12Zones[0]
+	// F1: instants that coincide with a sentinel of the representation (Go's zero time.Time, the epoch -1 kept in an
+	// invalid dateObject, Unix 0) and their neighbours, through every route that produces a Date
+	sentinels := []int64{c12GoZero - 1, c12GoZero, c12GoZero + 1, -1, 0, 1}
+	k := 0
+	for _, s := range sentinels {
+		cs := "(Some " + Cz(s) + ")"
+		iso := c12ISO(s)
+		tm := time.UnixMilli(s).UTC()
+		// month-overflow route of Date.UTC / the constructor (a year below 100 cannot be written directly)
+		fl := []int64{int64(tm.Year()) + 2000, int64(tm.Month()) - 1 - 24000, int64(tm.Day()), int64(tm.Hour()), int64(tm.Minute()), int64(tm.Second()), int64(tm.Nanosecond() / 1000000)}
+		fjs := make([]string, 7)
+		fq := make([]qarg, 7)
+		for i, v := range fl {
+			fjs[i], fq[i] = JSNum(float64(v)), qInt(v)
+		}
+		for _, start := range []string{
+			fmt.Sprintf("new Date(%s)", JSNum(float64(s))),
+			fmt.Sprintf("new Date(%s)", JSStr(Units(iso))),
+			fmt.Sprintf("new Date(Date.parse(%s))", JSStr(Units(iso))),
+			fmt.Sprintf("new Date(Date.UTC(%s))", strings.Join(fjs, ",")),
+			fmt.Sprintf("new Date(%s)", strings.Join(fjs, ",")),
+			fmt.Sprintf("(function () { var d = new Date(0); d.setTime(%s); return d; })()", JSNum(float64(s))),
+			fmt.Sprintf("(function () { var d = new Date(NaN); d.setTime(%s); return d; })()", JSNum(float64(s))),
+			fmt.Sprintf("new Date(new Date(%s).valueOf())", JSNum(float64(s))),
+		} {
+			g.hist("sentinel-route", utcZ, start, cs, nil)
+		}
+		g.utcq("sentinel-utc", false, fq)
+		g.utcq("sentinel-utc", true, fq)
+		for _, e := range []string{"Date.parse(%s)", "new Date(%s).getTime()", "new Date(%s).valueOf()"} {
+			src := fmt.Sprintf(e, JSStr(Units(iso)))
+			obs := g.js(src)
+			env.Add(fmt.Sprintf("CParse %s %s", Cstr(iso), optZ(obs)), fmt.Sprintf("sentinel-parse: %s -> %s", src, obs), "sentinel-parse", true)
+		}
+		{
+			t := s
+			isoObs := g.js(fmt.Sprintf("var d = new Date(%s); d.toISOString()", JSNum(float64(t))))
+			back := g.js(fmt.Sprintf("Date.parse(%s)", JSStr(Units(isoObs))))
+			json := g.js(fmt.Sprintf("new Date(%s).toJSON()", JSNum(float64(t))))
+			same := "false"
+			if json == isoObs {
+				same = "true"
+			}
+			env.Add(fmt.Sprintf("CIso %s %s %s %s", Cz(t), Cstr(isoObs), optZ(back), same), fmt.Sprintf("sentinel-iso: new Date(%d).toISOString() -> %s ; Date.parse -> %s ; toJSON same=%s", t, isoObs, back, same), "sentinel-iso", true)
+		}
+		// setTime onto the instant from a valid, an invalid and the same Date
+		for _, from := range [][2]string{{"0", "(Some 0)"}, {"NaN", "None"}, {JSNum(float64(s)), cs}} {
+			g.hist("sentinel-settime", utcZ, "new Date("+from[0]+")", from[1], []hop{{7, []qarg{qInt(s)}, k}})
+			k++
+		}
+		// every setter, with every argument count, called so that MakeDate lands exactly on the instant: the UTC setters,
+		// the local setters under UTC and the local setters in a zone with a non-zero offset
+		for id := 0; id <= 16; id++ {
+			if id >= 7 && id < 10 {
+				continue
+			}
+			for n := 1; n <= c12Arity(id); n++ {
+				var zs []c12zone
+				switch {
+				case id < 10:
+					zs = []c12zone{utcZ, c12Zones[1+(k+rot)%3]}
+				case thorough:
+					zs = c12Zones
+				default:
+					zs = []c12zone{utcZ, c12Zones[1+(k+rot)%3]}
+				}
+				for _, z := range zs {
+					loc := z.loc
+					if id < 10 {
+						loc = time.UTC
+					}
+					base, ok := c12BaseFor(id, n, s, loc)
+					if !ok {
+						continue
+					}
+					ps := c12Params(id, time.UnixMilli(s).In(loc))[:n]
+					args := make([]qarg, n)
+					for i, v := range ps {
+						args[i] = qInt(v)
+					}
+					g.hist("sentinel-setter", z, fmt.Sprintf("new Date(%s)", JSNum(float64(base))), "(Some "+Cz(base)+")", []hop{{id, args, k}})
+					k++
+				}
+			}
+		}
+		// carried into the instant by overflow of the last field
+		g.hist("sentinel-setter", utcZ, fmt.Sprintf("new Date(%s)", JSNum(float64(s-1))), "(Some "+Cz(s-1)+")", []hop{{0, []qarg{qInt(int64(time.UnixMilli(s-1).UTC().Nanosecond()/1000000) + 1)}, 0}})
+		g.hist("sentinel-setter", utcZ, fmt.Sprintf("new Date(%s)", JSNum(float64(s+1))), "(Some "+Cz(s+1)+")", []hop{{0, []qarg{qInt(int64(time.UnixMilli(s+1).UTC().Nanosecond()/1000000) - 1)}, 0}})
+		g.hist("sentinel-setter", utcZ, fmt.Sprintf("new Date(%s)", JSNum(float64(s+86400000))), "(Some "+Cz(s+86400000)+")", []hop{{4, []qarg{qInt(int64(time.UnixMilli(s+86400000).UTC().Day()) - 1)}, 1}})
+	}
+
+	// F2: ToInteger is applied to every field itself (15.9.1.11 MakeTime, 15.9.1.12 MakeDay, 15.9.4.3): each position of
+	// Date.UTC / the constructor with a non-integral value of either sign, in every spelling
+	tuples := [][]int64{{2000, 0, 1, 0, 0, 0, 0}, {1970, 0, 1, 0, 0, 0, 0}, {1969, 11, 31, 23, 59, 59, 999}, {2024, 1, 29, 12, 30, 30, 500}}
+	fracs := []int64{-500, -1500, -250, -999, -1, 500, 1999, 59999, -1000500, 999999500}
+	yfracs := []int64{99500, -500, 500, 99999, -999, 100500, 1999500, -1500, 50250, 99001}
+	k = 0
+	for ti, tp := range tuples {
+		for pos := 0; pos < 7; pos++ {
+			vals := fracs
+			if pos == 0 {
+				vals = yfracs
+			}
+			for _, v := range vals {
+				k++
+				n := 7
+				if pos >= 1 && k%4 == 0 {
+					n = pos + 1 // the fractional field is the last one passed
+				}
+				if n < 2 {
+					n = 2
+				}
+				args := make([]qarg, n)
+				for i := 0; i < n; i++ {
+					args[i] = qInt(tp[i])
+				}
+				args[pos] = qMilli(v, k/3)
+				g.utcq("utc-fraction", (k+ti)%2 == 0, args)
+			}
+		}
+	}
+	for _, all := range [][]int64{{2000900, 900, 1900, -900, -900, -900, -900}, {1999100, -100, 1500, 23999, 59999, 59999, 999999}, {-900, -900, -900, -900, -900, -900, -900}, {99900, 11900, 31900, 23900, 59900, 59900, 999900}} {
+		for sp := 0; sp < 3; sp++ {
+			args := make([]qarg, 7)
+			for i, v := range all {
+				args[i] = qMilli(v, sp)
+			}
+			g.utcq("utc-fraction", sp == 1, args)
+		}
+	}
+
+	// F3: fractional arguments of the setters (separate code path: number().int64), and arguments BEYOND a setter's
+	// parameter list (15.9.5.28-41 read only the declared parameters: a surplus NaN / undefined / Infinity / object is
+	// ignored), through a direct call, apply and call; contrasted with the same value in the last declared position
+	k = 0
+	for id := 0; id <= 16; id++ {
+		if id >= 8 && id < 10 {
+			continue
+		}
+		ar := c12Arity(id)
+		small := func(i int) qarg { return qInt(int64(3 + 2*i + id%5)) }
+		for bi, base := range []int64{0, 951782400000 + 3723004} {
+			bjs, bcq := fmt.Sprintf("new Date(%s)", JSNum(float64(base))), "(Some "+Cz(base)+")"
+			// fractions: all positions negative fractions; each single position -0.5
+			fa := make([]qarg, ar)
+			for i := range fa {
+				fa[i] = qMilli(-int64(1500+1000*i+250*bi), k+i)
+			}
+			g.hist("setter-fraction", utcZ, bjs, bcq, []hop{{id, fa, 0}})
+			for pos := 0; pos < ar; pos++ {
+				a := make([]qarg, ar)
+				for i := range a {
+					a[i] = small(i)
+				}
+				a[pos] = qMilli([]int64{-500, -999, 1500, -1250}[(k+pos)%4], k)
+				g.hist("setter-fraction", utcZ, bjs, bcq, []hop{{id, a, k}})
+				k++
+			}
+			// surplus arguments
+			for si, sv := range c12NonNumbers {
+				if !thorough && id != 7 && (si+id+bi)%2 == 0 && si >= 5 {
+					continue
+				}
+				a := make([]qarg, ar, ar+2)
+				for i := range a {
+					a[i] = small(i)
+				}
+				a = append(a, sv)
+				if (si+k)%3 == 0 {
+					a = append(a, c12NonNumbers[(si+3)%len(c12NonNumbers)])
+				}
+				g.hist("setter-surplus", utcZ, bjs, bcq, []hop{{id, a, k}})
+				k++
+			}
+			g.hist("setter-surplus", utcZ, bjs, bcq, []hop{{id, append(func() []qarg {
+				a := make([]qarg, ar)
+				for i := range a {
+					a[i] = small(i)
+				}
+				return a
+			}(), qInt(5), qarg{"null", "(Some 0)"}), k}})
+			// the same values in a declared position invalidate the Date
+			if bi == 0 {
+				for _, sv := range c12NonNumbers[:4] {
+					a := make([]qarg, ar)
+					for i := range a {
+						a[i] = small(i)
+					}
+					a[ar-1] = sv
+					g.hist("setter-nan-field", utcZ, bjs, bcq, []hop{{id, a, k}})
+					k++
+				}
+			}
+		}
+		// conversions counted: the surplus is never converted; nsur = 0: the first argument is NaN and the declared rest
+		// must still be converted (pinned witness family of finding C12-args-not-converted)
+		for _, nsur := range []int{0, 1, 2} {
+			if nsur == 0 && ar < 2 {
+				continue
+			}
+			a := make([]string, ar+nsur)
+			cq := make([]string, ar+nsur)
+			for i := range a {
+				v := "7"
+				cq[i] = "(Some 7)"
+				if i >= ar && nsur == 2 || i == 0 && nsur == 0 {
+					v, cq[i] = "NaN", "None"
+				}
+				a[i] = fmt.Sprintf("({valueOf: function () { cnt++; return %s; }})", v)
+			}
+			src := fmt.Sprintf("var d = new Date(0); var cnt = 0; d.%s(%s); cnt", c12SetterName(id), strings.Join(a, ","))
+			obs := g.js(src)
+			n, _ := strconv.ParseInt(obs, 10, 64)
+			if _, err := strconv.ParseInt(obs, 10, 64); err != nil {
+				n = -1
+			}
+			env.Add(fmt.Sprintf("CConvS %d (Some 0) %s %s", id, Clist(cq), Cz(n)), fmt.Sprintf("conversions-surplus: %s -> %s", src, obs), "set-conversions", true)
+		}
+	}
+
+	// F4: the time value is one instant whatever the host zone: a local-time setter in a zone with a non-zero offset,
+	// then every UTC accessor / toISOString / toJSON and a following setUTC* must describe the same instant
+	k = 0
+	for zi := 1; zi < len(c12Zones); zi++ {
+		z := c12Zones[zi]
+		for id := 10; id <= 16; id++ {
+			for n := 1; n <= c12Arity(id); n++ {
+				k++
+				if !thorough && k%2 == int(env.Seed&1) && n > 1 {
+					continue
+				}
+				base := []int64{946684800000, 951782400000 + 3723004, c12GoZero + 3600000, -1}[k%4]
+				tm := time.UnixMilli(base).In(z.loc)
+				ps := c12Params(id, tm)[:n]
+				args := make([]qarg, n)
+				for i, v := range ps {
+					args[i] = qInt(v + int64(1+i)) // move every set field by a little
+				}
+				g.hist("local-then-utc", z, fmt.Sprintf("new Date(%s)", JSNum(float64(base))), "(Some "+Cz(base)+")",
+					[]hop{{id, args, k}, {2, []qarg{qInt(15)}, 0}, {id, args[:1], k + 1}, {[]int{0, 1, 3, 4, 5, 6}[k%6], []qarg{qInt(int64(k % 12))}, 0}})
+			}
+		}
+	}
+	// a result beyond 2^53 is the double nearest to it, and the next call composes from that double
+	for _, c := range []struct {
+		base int64
+		ops  []hop
+	}{
+		{-24291273599, []hop{{6, []qarg{qInt(328166)}, 0}, {6, []qarg{qInt(3070), qInt(7)}, 0}}},
+		{1, []hop{{6, []qarg{qInt(300001)}, 0}, {6, []qarg{qInt(2001)}, 0}, {0, []qarg{qInt(7)}, 0}}},
+		{-1, []hop{{16, []qarg{qInt(-300001)}, 0}, {16, []qarg{qInt(1999), qInt(0), qInt(1)}, 0}}},
+		{86399999, []hop{{5, []qarg{qInt(3600003 * 12)}, 0}, {6, []qarg{qInt(1970), qInt(0)}, 0}}},
+	} {
+		g.hist("beyond-2^53-then-back", utcZ, fmt.Sprintf("new Date(%s)", JSNum(float64(c.base))), "(Some "+Cz(c.base)+")", c.ops)
+	}
+}
+
 func runC12(env *Env) {
 	time.Local = time.UTC
 	env.Import = "Otto.C12.Corr"
-	env.Rule = "time values: uniform over +-8.64e15 and around year/month/leap-day/century boundaries; field tuples in +-1e6 with NaN/Infinity; setUTC* histories of length 1-4; non-trivial = distinct case whose time value or a field lies outside 1970..2100 or that involves a NaN, overflowing field or negative time"
+	env.Rule = "time values: uniform over +-8.64e15 and around year/month/leap-day/century boundaries; field tuples in +-1e6 with NaN/Infinity; setUTC* histories of length 1-4; pinned on every seed: sentinel instants (0001-01-01T00:00:00.000Z, -1, 0, +-1 ms) through every constructor/parse/setTime/setter route, fractional fields of Date.UTC/constructor/setters in thousandths (ToInteger done in Coq), surplus setter arguments (direct/apply/call), local-time setters in constant-offset zones followed by UTC accessors; non-trivial = distinct case whose time value or a field lies outside 1970..2100 or that involves a NaN, overflowing field or negative time"
 	g := &c12gen{env: env, vm: otto.New()}
 	r := env.Rng
 	const getJS = `[d.getTime(), d.getUTCFullYear(), d.getUTCMonth(), d.getUTCDate(), d.getUTCDay(), d.getUTCHours(), d.getUTCMinutes(), d.getUTCSeconds(), d.getUTCMilliseconds(), d.valueOf(), d.getFullYear(), d.getMonth(), d.getDate(), d.getDay(), d.getHours(), d.getMinutes(), d.getSeconds(), d.getMilliseconds()].join(",")`
@@ -231,6 +695,7 @@ func runC12(env *Env) {
 			}
 		}
 	}
+	g.pinnedFamilies()
 	// the UTC functions must not depend on the host's zone: a third of the cases run with time.Local set to a
 	// zone whose offset has a seconds component (as the pre-standard local mean times of the zone database
 	// have), a half-hour zone, or a DST zone when the zone database is available; those cases use only
@@ -389,6 +854,41 @@ func runC12(env *Env) {
 				obs := g.js(src2)
 				env.Add(fmt.Sprintf("CReent %s (%d, %s) (%d, %s) %s", cstart, oid, Clist(ocq), iid, Clist(icq), Clist(optZList(obs))),
 					fmt.Sprintf("reentrant setter: %s -> %s", src2, obs), "set-reentrant", true)
+				continue
+			}
+			if r.Intn(3) == 0 {
+				// the same kind of history with local-time setters mixed in, in a constant-offset zone, with fractional and
+				// surplus arguments and every call form, followed by all getters
+				z := c12Zones[r.Intn(len(c12Zones))]
+				hs := r.Intn(4) + 1
+				hops := make([]hop, hs)
+				for k := range hops {
+					id := r.Intn(15)
+					if id >= 8 {
+						id += 2 // 10..16
+					}
+					na := r.Intn(c12Arity(id)) + 1
+					if r.Intn(4) == 0 {
+						na = c12Arity(id) + 1 + r.Intn(2)
+					}
+					args := make([]qarg, na)
+					for a := range args {
+						switch {
+						case id == 7:
+							args[a] = qInt(g.timeValue())
+						case id%10 == 6 && a == 0:
+							args[a] = qInt(int64(r.Intn(6000) - 1000))
+						case r.Intn(5) == 0:
+							args[a] = qMilli(int64(r.Intn(200001)-100000), r.Intn(4))
+						case r.Intn(12) == 0 || a >= c12Arity(id) && r.Intn(2) == 0:
+							args[a] = c12NonNumbers[r.Intn(len(c12NonNumbers))]
+						default:
+							args[a] = qInt(int64(r.Intn(141) - 40))
+						}
+					}
+					hops[k] = hop{id, args, r.Intn(4)}
+				}
+				g.hist("set-local-mixed", z, "new Date("+start+")", cstart, hops)
 				continue
 			}
 			if r.Intn(4) == 0 {
